@@ -60,6 +60,7 @@ type FuncContract struct {
 	Assumed   bool // contract is assumed, body not verified (listed in evidence)
 	Props     []string // properties this contract serves
 	Uses      map[string]string // callee name -> aspect of the callee contract to use at its call sites
+	Callsites map[string][]Clause // callee name -> conditions that must hold at every call of it in this function (callee_<param> = actual argument)
 	File      string
 	Line      int
 	PkgPath   string // package of the contract file
@@ -103,7 +104,7 @@ type ContractSet struct {
 	Ghosts []string               // global boolean ghost variables: ghost NAME bool
 }
 
-var kwRe = regexp.MustCompile(`^(func|extern|fun|ofun|heaps|ghost|axiom|lemma|aspect|requires|ensures|modifies|decreases|loop|pure|fresh|havocs|maypanic|panics|inline|assumed|props|noframe|uses|trusted_ensures)\b`)
+var kwRe = regexp.MustCompile(`^(func|extern|fun|ofun|heaps|ghost|axiom|lemma|aspect|requires|ensures|modifies|decreases|loop|pure|fresh|havocs|maypanic|panics|inline|assumed|props|noframe|uses|trusted_ensures|callsite)\b`)
 
 type rawItem struct {
 	kw   string
@@ -272,6 +273,21 @@ func (cs *ContractSet) load(path, pkgPath string) error {
 				for _, f := range strings.Split(parts[1], ",") {
 					cur.Uses[strings.TrimSpace(f)] = strings.TrimSpace(parts[0])
 				}
+			case "callsite":
+				// callsite F: <condition over the caller's state and callee_<param>>
+				i := strings.Index(it.text, ":")
+				if i < 0 {
+					return fail(it, "callsite: expected 'callsite <function>: <condition>'")
+				}
+				c, err := clause(it, strings.TrimSpace(it.text[i+1:]))
+				if err != nil {
+					return err
+				}
+				if cur.Callsites == nil {
+					cur.Callsites = map[string][]Clause{}
+				}
+				name := strings.TrimSpace(it.text[:i])
+				cur.Callsites[name] = append(cur.Callsites[name], c)
 			case "pure":
 				cur.Pure = true
 			case "fresh":
